@@ -442,6 +442,24 @@ def c18_extra(tier, batches, results, cov):
             "the mix batches and the default-set objects are sampled", "sweeps_complete": bool(cov.get("exhaustive_sweeps"))}
 
 
+# ----------------------------------------------------------------------------- determinism proof (not a property)
+def det_batches(tier):
+    q = tier == "quick"
+    n = 40 if q else 500
+    bs = []
+    for be, var in (("spqlios-fma", "optim"), ("fftw", "debug"), ("nayuki-portable", "optim")):
+        bs += [B("det-gates-%s-%s" % (be, var), "gates", be, var, n, spec="swarm:16", specpool=4, nkeys=2, pfault=0.6),
+               B("det-conc-%s-%s" % (be, var), "conc", be, var, n, spec="swarm:12", specpool=3, nkeys=1, maxw=8),
+               B("det-io-%s-%s" % (be, var), "io", be, var, n, spec="swarm:6", specpool=2, nkeys=1),
+               B("det-iofault-%s-%s" % (be, var), "iofault", be, var, n, spec="swarm:4", specpool=2, fmode="mix", attempts=20),
+               B("det-cloudkey-%s-%s" % (be, var), "cloudkey", be, var, n // 2, spec="swarm:12", specpool=6, nkeys=2),
+               B("det-low-%s-%s" % (be, var), "low", be, var, n, spec="swarm:8", specpool=2, nkeys=1, **({"xBmax": 10} if (var == "debug" or be.startswith("nayuki")) else {})),
+               B("det-rand-%s-%s" % (be, var), "rand", be, var, n, spec="swarm:12"),
+               B("det-enc-%s-%s" % (be, var), "enc", be, var, n, spec="swarm:12", specpool=3, nkeys=1),
+               B("det-life-%s-%s" % (be, var), "life", be, var, n, maxn=9, nops=10, **({"Bmax": 10} if (var == "debug" or be.startswith("nayuki")) else {}))]
+    return bs
+
+
 # ----------------------------------------------------------------------------- registry
 RECIPES = {
     "C05": {
